@@ -56,11 +56,18 @@ impl<T: 'static> Resource<T> {
                 self.guards.update(|guards| guards.push(guard));
             }
 
+            // Suspend the boundary the resource lives under before the fetch function reads its
+            // dependencies (like the scopes above): whatever reacts to the boundary's loading
+            // state by changing a dependency does so before the fetch is started, not behind
+            // its back.
+            let guard = SuspenseTaskGuard::new();
+
             let fetch = self.latest_fetch.get_untracked() + 1;
             self.latest_fetch.set_silent(fetch);
             let fut = self.refetch.update_silent(|f| f());
 
-            sycamore_futures::create_suspense_task(async move {
+            sycamore_futures::spawn_local_scoped(async move {
+                let _guard = guard;
                 let value = fut.await;
                 // A fetch that was superseded while it was finishing (its last step, or something
                 // that step triggered, changed a dependency) was aborted too late to be stopped:
